@@ -171,6 +171,19 @@ def set_parameter(lib, name, key, value, hyp=None):
     return f(key.encode(), float(value))
 
 
+def set_parameter_any(lib, name, hyp, key, value):
+    """global `<name>_setParameter`, or the per-hypothesis one when parameters are hypothesis specific"""
+    for fn in (name + "_setParameter", "%s_%s_setParameter" % (name, hyp)):
+        try:
+            f = getattr(lib, fn)
+        except AttributeError:
+            continue
+        f.restype = C.c_int
+        f.argtypes = [C.c_char_p, C.c_double]
+        return f(key.encode(), float(value))
+    return 0
+
+
 def set_ushort_parameter(lib, name, key, value):
     f = getattr(lib, name + "_setUnsignedShortParameter")
     f.restype = C.c_int
